@@ -30,8 +30,11 @@ J = ["--output", "json"]
 
 
 def tree(kind):
-    """kind: both | matches | renames | none  (content matches only on line 1: `replace` plans are line-relative, C03)"""
+    """kind: both | matches | renames | none | nonutf8 (= both, plus a matching file whose NAME is not valid UTF-8, created by
+    execute())  (content matches only on line 1: `replace` plans are line-relative, C03)"""
     t = {"keep.txt": ("f", b"nothing here\n", 0o644)}
+    if kind == "nonutf8":
+        kind = "both"
     if kind in ("both", "matches"):
         t["src/main.rs"] = ("f", b"let foo_bar = 1; // FooBar\n", 0o644)
     if kind in ("both", "renames"):
@@ -152,6 +155,19 @@ def scenarios(thorough):
                     cls="nonexistent-path"))
     S.append(Sc("replace/nonexistent-path", "replace", ["replace", TERM, REPL, "no_such_dir", "--no-regex", "-y"] + J + NA, effect="impossible",
                 fail="create_simple_plan", site="err_arm", row={"yes": True, "noregex": True}, cls="nonexistent-path"))
+    # a planned path that is not valid UTF-8: the `plan` member is rendered through to_value(..).unwrap_or(Null)
+    U = {"serfails": True}
+    S.append(Sc("search/nonutf8", "search", ["search", TERM] + J + NA, kind="nonutf8", effect="none", row=dict(U), cls="non-utf8-path"))
+    S.append(Sc("plan/nonutf8+dry", "plan", ["plan", TERM, REPL, "--dry-run"] + J + NA, kind="nonutf8", effect="none", row=dict(U, dry=True),
+                cls="non-utf8-path"))
+    S.append(Sc("rename/nonutf8+dry", "rename", ["rename", TERM, REPL, "-y", "--dry-run"] + J + NA, kind="nonutf8", effect="none",
+                row=dict(U, dry=True, yes=True), cls="non-utf8-path"))
+    S.append(Sc("plan/nonutf8", "plan", ["plan", TERM, REPL] + J + NA, kind="nonutf8", effect="impossible", fail="plan_operation", site="err_arm",
+                row=dict(U), cls="non-utf8-path"))
+    S.append(Sc("replace/nonutf8", "replace", ["replace", TERM, REPL, "--no-regex", "-y"] + J + NA, kind="nonutf8", effect="impossible",
+                fail="create_simple_plan", site="err_arm", row=dict(U, yes=True, noregex=True), cls="non-utf8-path"))
+    S.append(Sc("replace/empty-pattern", "replace", ["replace", "", "x", "--no-regex", "-y"] + J + NA, effect="impossible",
+                fail="create_simple_plan", site="err_arm", row={"yes": True, "noregex": True}, cls="invalid-pattern"))
     # apply / undo / redo / history / status after real operations
     plan_pre = [["plan", TERM, REPL, "--quiet"] + NA]
     ren_pre = [["rename", TERM, REPL, "-y", "--quiet"] + NA]
@@ -194,8 +210,8 @@ def scenarios(thorough):
                 cls="no-confirmation"))
     S.append(Sc("apply/stale-plan", "apply", ["apply"] + J + NA, pre=plan_pre, effect="renamed", fail="apply_operation", site=E,
                 mutate="stale_same_length", cls="stale-plan"))
-    S.append(Sc("apply/stale-plan-truncated", "apply", ["apply"] + J + NA, pre=plan_pre, effect="renamed", fail="apply_operation", site="panic",
-                mutate="stale_truncated", cls="stale-plan"))
+    S.append(Sc("apply/stale-plan-truncated", "apply", ["apply"] + J + NA, pre=plan_pre, effect="renamed", fail="apply_operation", site=E,
+                mutate="stale_truncated", cls="stale-plan"))        # a panic until 29e3f64 (then: an ordinary error)
     # stdout on a terminal: the only situation in which the prompt of rename_operation is reachable under --output json
     S.append(Sc("rename/tty-no-yes", "rename", ["rename", TERM, REPL] + J + NA, effect="renamed", tty=True, cls="terminal"))
     S.append(Sc("rename/tty-yes (control)", "rename", ["rename", TERM, REPL, "-y"] + J + NA, effect="renamed", tty=True, row={"yes": True},
@@ -394,6 +410,9 @@ def execute(sc):
     """run one scenario in a fresh scratch tree -> observation dict"""
     with common.scratch("renamify-verif.c19.") as root:
         common.materialize(root, tree(sc.kind))
+        if sc.kind == "nonutf8":
+            with open(os.path.join(root.encode(), b"docs", b"foo_bar_\xff.txt"), "wb") as fh:
+                fh.write(b"plain\n")
         if sc.git:
             subprocess.run(["git", "init", "-q"], cwd=root, env=common.BASE_ENV, stdout=subprocess.DEVNULL, stderr=subprocess.DEVNULL)
         for pre in sc.pre:
@@ -507,8 +526,8 @@ def classify(sc, obs, kind, detail):
             return "clap_error_no_document"
         if sc.site == "pre_dispatch" and rc in (1, 2) and err.strip():
             return "pre_dispatch_exit_no_document"
-        if sc.site == "panic" and rc == 101 and "panicked at renamify-core/src/apply.rs" in err:
-            return "panic_no_document"
+        if rc == 101 and "panicked at renamify-core/src/apply.rs" in err:
+            return "panic_no_document"          # repaired by 29e3f64: no longer listed, so a return is a VIOLATION
         if sc.cmd == "replace" and rc == 0 and sc.is_json and sc.row.get("quiet") and not err.strip():
             return "replace_json_quiet_no_document"
     if kind == "text_on_stdout" and sc.tty and sc.cmd == "rename" and not sc.row.get("yes") and rc == 0 and obs["ndocs"] == 1 \
@@ -524,6 +543,9 @@ def classify(sc, obs, kind, detail):
         labels = {l for l, _ in detail}
         if sc.cmd == "search" and labels == {"vscode.search"} and msgs and msgs <= SEARCH_MODE_ERRS:
             return "search_mode_required_fields"
+        if sc.kind == "nonutf8" and sc.cmd in ("search", "plan") and labels <= {"vscode.search", "vscode.createPlan"} and msgs and \
+                msgs <= {"$.plan: expected object, got null", "$.plan: expected array, got null"}:
+            return "non_utf8_plan_null"
         if sc.cmd == "history" and labels == {"vscode.history"} and msgs == {"$: expected array, got object"}:
             return "history_shape_mismatch"
         if sc.cmd == "status" and labels == {"vscode.status"} and msgs and \
@@ -543,6 +565,9 @@ def model_request(sc):
     if sc.cmd not in ("plan", "search", "rename", "replace"):
         nomatch = noren = False
     f = lambda b: "1" if b else "0"
+    if r.get("serfails"):
+        return " ".join(["c19rowx", hexs(sc.cmd), f(sc.is_json), f(r.get("quiet")), f(r.get("dry")), f(r.get("yes")), f(r.get("preview")),
+                         f(r.get("noregex")), f(nomatch), f(noren), hexs(sc.fail) if sc.fail else "-", "1"])
     return " ".join(["c19row", hexs(sc.cmd), f(sc.is_json), f(r.get("quiet")), f(r.get("dry")), f(r.get("yes")), f(r.get("preview")),
                      f(r.get("noregex")), f(nomatch), f(noren), hexs(sc.fail) if sc.fail else "-"])
 
@@ -699,7 +724,7 @@ def run(ctx):
     ctx.cov["exhaustive"] = True
     ctx.cov["rule"] = ("CLI grid, every cell run once in a fresh scratch tree: commands {plan, search, rename, replace, apply, undo, redo, history, "
                        "status, version} x scenario class {matches+renames, matches only, renames only, none, nonexistent path, unknown id, missing/"
-                       "corrupt plan file, invalid regex, rename conflict, stale plan (same length / truncated), no confirmation, invalid flag "
+                       "corrupt plan file, invalid regex, empty literal pattern, a planned path that is not valid UTF-8, rename conflict, stale plan (same length / truncated), no confirmation, invalid flag "
                        "value (clap), bad -C / --auto-init (exits before dispatch), first run in/outside a git repository with/without -y, "
                        "--no-auto-init, --auto-init repo, rename on a pseudo-terminal with / without -y} x {--quiet, --dry-run where accepted}; "
                        "thorough additionally x every --preview value. "
